@@ -267,7 +267,7 @@ func main() {
 	}
 	nRandom := 900
 	if cfg.Thorough() {
-		nRandom = 20000
+		nRandom = 10000
 	}
 	for i := 0; i < nRandom; i++ {
 		var a *core.Entry
